@@ -169,6 +169,18 @@ enum Target {
     TokenWithoutTable(i64),
     /// token + table of known keyspace number i (strategy i of the family)
     Known(usize, i64),
+    /// token + the tablet table `kt.t`; `true` = the token is covered by the tablet the cluster knows
+    Tablet(i64, bool),
+}
+
+/// The one tablet a cluster state was taught for table `kt.t`.
+#[derive(Clone, Debug)]
+struct TabletSpec {
+    /// covers (first, last]
+    first: i64,
+    last: i64,
+    /// (node, shard) in tablet order
+    replicas: Vec<(usize, i32)>,
 }
 
 #[derive(Clone, Debug)]
@@ -268,10 +280,11 @@ fn expectation(ring: &Ring, states: &[NodeState], cfg: &PolicyCfg, replicas_ring
 fn judge(seq: &[usize], exp: &Expect, what: &str) -> Vec<(String, String)> {
     let mut bad = Vec::new();
     let mut seen = BTreeSet::new();
+    let mut dup_reported = false;
     for &i in seq {
-        if !seen.insert(i) {
+        if !seen.insert(i) && !dup_reported {
             bad.push((format!("{what}:duplicate"), format!("node {i} is named twice in {seq:?}")));
-            break;
+            dup_reported = true;
         }
     }
     for &i in seq {
@@ -425,6 +438,7 @@ struct Tally {
     picks_some: u64,
     picks_none: u64,
     empty_plans: u64,
+    tablet_plans: u64,
     signatures: BTreeSet<String>,
 }
 
@@ -443,6 +457,7 @@ impl Env<'_> {
         self.r.counters.add("pick_returned_a_target", t.picks_some);
         self.r.counters.add("pick_returned_none", t.picks_none);
         self.r.counters.add("empty_plans_expected_and_observed", t.empty_plans);
+        self.r.counters.add("plans_for_tablet_table_requests", t.tablet_plans);
         self.signatures.lock().unwrap().extend(t.signatures);
     }
 }
@@ -461,7 +476,9 @@ struct Cluster {
 fn build(c: &Concrete, absent_dc: &str) -> Cluster {
     let ring = c.ring();
     let strategies = c05_strategies(c);
-    let ks: Vec<_> = strategies.iter().enumerate().map(|(i, s)| topo::keyspace(&format!("ks{i}"), s, false)).collect();
+    let mut ks: Vec<_> = strategies.iter().enumerate().map(|(i, s)| topo::keyspace(&format!("ks{i}"), s, false)).collect();
+    // the tablet-based keyspace (its strategy must never be consulted for a tablet table)
+    ks.push(topo::keyspace("kt", &Strat::Simple(1), true));
     let state = topo::build_cluster(c, &ks);
     let mut nodes: Vec<Option<Arc<scylla::cluster::Node>>> = vec![None; c.nodes.len()];
     for n in state.get_nodes_info() {
@@ -483,20 +500,25 @@ fn build(c: &Concrete, absent_dc: &str) -> Cluster {
     Cluster { concrete: c.clone(), ring, state, nodes: nodes.into_iter().map(|n| n.expect("every peer becomes a node")).collect(), space: Space { strategies, tokens, prefs }, placements }
 }
 
-fn case_json(cl: &Cluster, absent_dc: &str, states: &[NodeState], cfg: &PolicyCfg, req: &Request) -> Value {
+fn case_json(cl: &Cluster, tablet: Option<&TabletSpec>, absent_dc: &str, states: &[NodeState], cfg: &PolicyCfg, req: &Request) -> Value {
     let target = match &req.target {
+        Target::Tablet(t, covered) => json!({"tablet_token": t, "covered": covered}),
         Target::Nothing => json!("nothing"),
         Target::UnknownKeyspace(t) => json!({"unknown_keyspace": t}),
         Target::TokenWithoutTable(t) => json!({"token_without_table": t}),
         Target::Known(si, t) => json!({"strategy": topo::strat_to_json(&cl.space.strategies[*si]), "token": t}),
     };
-    json!({"cluster": cl.concrete.to_json(), "absent_dc": absent_dc, "states": states.iter().map(|s| s.letter()).collect::<String>(), "policy": cfg.to_json(), "target": target, "lwt": req.lwt.name()})
+    let tab = tablet.map(|t| json!({"first": t.first, "last": t.last, "replicas": t.replicas.iter().map(|(n, s)| json!([n, s])).collect::<Vec<_>>()}));
+    json!({"cluster": cl.concrete.to_json(), "absent_dc": absent_dc, "states": states.iter().map(|s| s.letter()).collect::<String>(), "policy": cfg.to_json(), "target": target, "lwt": req.lwt.name(), "tablet": tab})
 }
 
 /// Run one (states already installed, policy, request) case: Plan to exhaustion (+ repeats), pick, fallback.
 #[allow(clippy::too_many_arguments)]
-fn run_case(env: &Env, tally: &mut Tally, cl: &Cluster, absent_dc: &str, rank: u64, states: &[NodeState], cfg: &PolicyCfg, policy: &dyn LoadBalancingPolicy, driver_pref: &NodeLocationPreference, req: &Request, verbose: bool) {
+fn run_case(env: &Env, tally: &mut Tally, cl: &Cluster, tablet: Option<(&ClusterState, &TabletSpec)>, absent_dc: &str, rank: u64, states: &[NodeState], cfg: &PolicyCfg, policy: &dyn LoadBalancingPolicy, driver_pref: &NodeLocationPreference, req: &Request, verbose: bool) {
     let unknown = TableSpec::borrowed("no_such_keyspace", "t");
+    let tablet_table = TableSpec::borrowed("kt", "t");
+    let cluster_state: &ClusterState = tablet.map(|t| t.0).unwrap_or(&cl.state);
+    let tablet_nodes: Vec<usize> = tablet.map(|t| t.1.replicas.iter().map(|r| r.0).collect()).unwrap_or_default();
     let ks_name;
     let known;
     let mut ri = RoutingInfo::default();
@@ -516,6 +538,14 @@ fn run_case(env: &Env, tally: &mut Tally, cl: &Cluster, absent_dc: &str, rank: u
             if cfg.token_aware {
                 let ti = cl.space.tokens.iter().position(|x| x == t).expect("token of the space");
                 reps = Some(&cl.placements[*si][ti]);
+            }
+        }
+        Target::Tablet(t, covered) => {
+            ri.token = Some(Token::new(*t));
+            ri.table = Some(&tablet_table);
+            if cfg.token_aware {
+                // replicas = the tablet's list, in tablet order; a token no known tablet covers has none
+                reps = Some(if *covered { &tablet_nodes } else { &[] });
             }
         }
     }
@@ -549,7 +579,7 @@ fn run_case(env: &Env, tally: &mut Tally, cl: &Cluster, absent_dc: &str, rank: u
                     req.lwt.name(),
                     reps
                 ),
-                case_json(cl, absent_dc, states, cfg, req),
+                case_json(cl, tablet.map(|t| t.1), absent_dc, states, cfg, req),
             )
         });
     };
@@ -558,7 +588,7 @@ fn run_case(env: &Env, tally: &mut Tally, cl: &Cluster, absent_dc: &str, rank: u
         if rep > 0 && !lwt {
             break; // repetitions only matter where determinism is claimed
         }
-        let plan = catch(AssertUnwindSafe(|| Plan::new(policy, &ri, &cl.state).map(|(n, _shard)| topo::node_index(n.host_id)).collect::<Vec<usize>>()));
+        let plan = catch(AssertUnwindSafe(|| Plan::new(policy, &ri, cluster_state).map(|(n, _shard)| topo::node_index(n.host_id)).collect::<Vec<usize>>()));
         let plan = match plan {
             Ok(p) => p,
             Err(p) => {
@@ -593,7 +623,7 @@ fn run_case(env: &Env, tally: &mut Tally, cl: &Cluster, absent_dc: &str, rank: u
         }
     }
     // fallback on its own: the same set / order demands, and no duplicate under the plan's own notion
-    let fb = catch(AssertUnwindSafe(|| policy.fallback(&ri, &cl.state).map(|(n, s)| (topo::node_index(n.host_id), s)).collect::<Vec<(usize, Option<u32>)>>()));
+    let fb = catch(AssertUnwindSafe(|| policy.fallback(&ri, cluster_state).map(|(n, s)| (topo::node_index(n.host_id), s)).collect::<Vec<(usize, Option<u32>)>>()));
     match fb {
         Err(p) => report("fallback:panic", format!("fallback panicked at {}: {p}", vcore::last_panic_location())),
         Ok(fb) => {
@@ -614,7 +644,7 @@ fn run_case(env: &Env, tally: &mut Tally, cl: &Cluster, absent_dc: &str, rank: u
         }
     }
     // pick on its own: if it names a target, that target belongs to the best non-empty group
-    let pk = catch(AssertUnwindSafe(|| policy.pick(&ri, &cl.state).map(|(n, s)| (topo::node_index(n.host_id), s))));
+    let pk = catch(AssertUnwindSafe(|| policy.pick(&ri, cluster_state).map(|(n, s)| (topo::node_index(n.host_id), s))));
     match pk {
         Err(p) => report("pick:panic", format!("pick panicked at {}: {p}", vcore::last_panic_location())),
         Ok(None) => {
@@ -654,13 +684,20 @@ struct Dims {
     all_tokens: bool,
 }
 
+struct TabletDims {
+    /// full {disabled,down,up}^n for clusters of up to this many nodes, the few_states subset above
+    all_states_upto_nodes: usize,
+    /// also query the first covered token and the token just below the tablet
+    boundary_tokens: bool,
+}
+
 fn install(cl: &Cluster, states: &[NodeState]) {
     for (n, s) in cl.nodes.iter().zip(states) {
         n.verif_set_state(Some(s.hook()));
     }
 }
 
-fn run_cluster(env: &Env, c: &Concrete, absent_dc: &str, topo_rank: u64, legs: &[Dims]) {
+fn run_cluster(env: &Env, c: &Concrete, absent_dc: &str, topo_rank: u64, legs: &[Dims], tablets: Option<&TabletDims>) {
     let cl = match catch(AssertUnwindSafe(|| build(c, absent_dc))) {
         Ok(x) => x,
         Err(p) => {
@@ -673,7 +710,7 @@ fn run_cluster(env: &Env, c: &Concrete, absent_dc: &str, topo_rank: u64, legs: &
     let mut sub: u64 = 0;
     for dims in legs {
         let states_list = if dims.all_states { all_states(n) } else { few_states(n) };
-        let tokens: Vec<i64> = if dims.all_tokens || cl.space.tokens.len() <= 2 { cl.space.tokens.clone() } else { vec![cl.space.tokens[0], cl.space.tokens[cl.space.tokens.len() / 2], *cl.space.tokens.last().unwrap()] };
+        let tokens: Vec<i64> = if dims.all_tokens && n <= 4 || cl.space.tokens.len() <= 2 { cl.space.tokens.clone() } else { vec![cl.space.tokens[0], cl.space.tokens[cl.space.tokens.len() / 2], *cl.space.tokens.last().unwrap()] };
         // policies are independent of node states: build them once
         let mut policies: Vec<(PolicyCfg, Arc<dyn LoadBalancingPolicy>, NodeLocationPreference)> = Vec::new();
         for pref in &cl.space.prefs {
@@ -709,13 +746,71 @@ fn run_cluster(env: &Env, c: &Concrete, absent_dc: &str, topo_rank: u64, legs: &
                     }
                     for req in &reqs {
                         sub += 1;
-                        run_case(env, &mut tally, &cl, absent_dc, (topo_rank << 40) | sub, states, cfg, policy.as_ref(), driver_pref, req, false);
+                        run_case(env, &mut tally, &cl, None, absent_dc, (topo_rank << 40) | sub, states, cfg, policy.as_ref(), driver_pref, req, false);
+                    }
+                }
+            }
+        }
+    }
+    if let Some(td) = tablets {
+        let states_list = if td.all_states_upto_nodes >= n { all_states(n) } else { few_states(n) };
+        let mut policies: Vec<(PolicyCfg, Arc<dyn LoadBalancingPolicy>, NodeLocationPreference)> = Vec::new();
+        for pref in &cl.space.prefs {
+            for failover in [false, true] {
+                let cfg = PolicyCfg { pref: pref.clone(), inherited: false, failover, token_aware: true, shuffle: true };
+                let p = cfg.build();
+                policies.push((cfg, p, pref.to_driver()));
+            }
+        }
+        for spec in tablet_specs(n, cl.space.tokens[0]) {
+            let taught = match teach(&cl, &spec) {
+                Ok(s) => s,
+                Err(e) => vcore::machinery_error(&format!("cannot teach a tablet: {e}")),
+            };
+            let mut toks = vec![(spec.last, true), (spec.last + 1, false)];
+            if td.boundary_tokens {
+                toks.push((spec.first + 1, true));
+                toks.push((spec.first, false));
+            }
+            for states in &states_list {
+                install(&cl, states);
+                for (cfg, policy, driver_pref) in &policies {
+                    for lwt in [Lwt::Neither, Lwt::Flag] {
+                        for (tok, covered) in &toks {
+                            sub += 1;
+                            tally.tablet_plans += 1;
+                            run_case(env, &mut tally, &cl, Some((&taught, &spec)), absent_dc, (topo_rank << 40) | sub, states, cfg, policy.as_ref(), driver_pref, &Request { target: Target::Tablet(*tok, *covered), lwt }, false);
+                        }
                     }
                 }
             }
         }
     }
     env.absorb(tally);
+}
+
+/// Replica lists a tablet is given: every ordered list of <= 2 distinct nodes, plus the nodes in
+/// reverse ring order (up to 3). Node i is on shard i+1, so a replica target never coincides with the
+/// shard-less (-> shard 0) target of the same node except through the plan's own target equality.
+fn tablet_specs(n: usize, anchor: i64) -> Vec<TabletSpec> {
+    let mut lists: Vec<Vec<usize>> = vec![vec![]];
+    for a in 0..n {
+        lists.push(vec![a]);
+        for b in 0..n {
+            if a != b {
+                lists.push(vec![a, b]);
+            }
+        }
+    }
+    if n >= 3 {
+        lists.push((0..n).rev().take(3).collect());
+    }
+    lists.into_iter().map(|l| TabletSpec { first: anchor - 1000, last: anchor + 50, replicas: l.into_iter().map(|i| (i, i as i32 + 1)).collect() }).collect()
+}
+
+fn teach(cl: &Cluster, spec: &TabletSpec) -> Result<ClusterState, String> {
+    let reps: Vec<(uuid::Uuid, i32)> = spec.replicas.iter().map(|(i, s)| (topo::node_uuid(*i), *s)).collect();
+    scylla::verif::cluster::learn_tablet(&cl.state, "kt", "t", spec.first, spec.last, &reps)
 }
 
 fn replay(env: &Env, case: &Value) {
@@ -729,7 +824,15 @@ fn replay(env: &Env, case: &Value) {
     let lwt = Lwt::from_name(case["lwt"].as_str().unwrap_or("neither"));
     let cl = build(&c, &absent);
     let t = &case["target"];
-    let target = if t.as_str() == Some("nothing") {
+    let tablet_spec: Option<TabletSpec> = case.get("tablet").filter(|x| !x.is_null()).map(|x| TabletSpec {
+        first: x["first"].as_i64().unwrap_or(0),
+        last: x["last"].as_i64().unwrap_or(0),
+        replicas: x["replicas"].as_array().map(|a| a.iter().map(|p| (p[0].as_u64().unwrap_or(0) as usize, p[1].as_i64().unwrap_or(0) as i32)).collect()).unwrap_or_default(),
+    });
+    let taught = tablet_spec.as_ref().map(|spec| teach(&cl, spec).unwrap_or_else(|e| vcore::machinery_error(&format!("replay: cannot teach the tablet: {e}"))));
+    let target = if let Some(x) = t.get("tablet_token") {
+        Target::Tablet(x.as_i64().unwrap_or(0), t["covered"].as_bool().unwrap_or(false))
+    } else if t.as_str() == Some("nothing") {
         Target::Nothing
     } else if let Some(x) = t.get("unknown_keyspace") {
         Target::UnknownKeyspace(x.as_i64().unwrap_or(0))
@@ -758,7 +861,14 @@ fn replay(env: &Env, case: &Value) {
     install(&cl, &states);
     let policy = cfg.build();
     let mut tally = Tally::default();
-    run_case(env, &mut tally, &cl, &absent, 0, &states, &cfg, policy.as_ref(), &cfg.pref.to_driver(), &Request { target, lwt }, true);
+    let tablet = match (&taught, &tablet_spec) {
+        (Some(st), Some(sp)) => {
+            println!("replay: tablet of kt.t = {sp:?}");
+            Some((st, sp))
+        }
+        _ => None,
+    };
+    run_case(env, &mut tally, &cl, tablet, &absent, 0, &states, &cfg, policy.as_ref(), &cfg.pref.to_driver(), &Request { target, lwt }, true);
 }
 
 /// One token per node (ring order = node order; every dc/rack placement, hence every ring order of
@@ -808,15 +918,48 @@ fn main() {
     let structure = Dims { all_states: true, inherited: vec![false], shuffle: vec![true], token_aware: vec![true], lwt: vec![Lwt::Neither, Lwt::Flag], all_tokens: thorough };
     let config = Dims { all_states: false, inherited: vec![false, true], shuffle: vec![true, false], token_aware: vec![true, false], lwt: Lwt::ALL.to_vec(), all_tokens: thorough };
     let legs = [structure, config];
+    let tablet_dims = TabletDims { all_states_upto_nodes: if thorough { 4 } else { 3 }, boundary_tokens: thorough };
     if r.args.has_flag("--count") {
         println!("topologies: {}", topos.len());
+        let mut total: u64 = 0;
+        let mut by_n: BTreeMap<usize, (u64, u64)> = BTreeMap::new();
+        for t in &topos {
+            let c = t.concrete(&SPELLINGS[0]);
+            let ring = c.ring();
+            let n = c.nodes.len() as u32;
+            let prefs = prefs_for(&ring, "dcX").len() as u64;
+            let strategies = c05_strategies(&c).len() as u64;
+            let mut ntok = ring.entries.len() as u64 + 1;
+            let mut plans = 0u64;
+            for d in &legs {
+                let states = if d.all_states { 3u64.pow(n) } else { few_states(n as usize).len() as u64 };
+                if (!d.all_tokens || n > 4) && ntok > 3 {
+                    ntok = 3;
+                }
+                let pol_ta = prefs * d.inherited.len() as u64 * 2 * d.shuffle.len() as u64;
+                let per_ta = 3 + strategies * ntok;
+                let n_ta = d.token_aware.iter().filter(|x| **x).count() as u64;
+                let n_tu = d.token_aware.iter().filter(|x| !**x).count() as u64;
+                plans += states * pol_ta * d.lwt.len() as u64 * (n_ta * per_ta + n_tu * 4);
+            }
+            let tstates = if tablet_dims.all_states_upto_nodes >= n as usize { 3u64.pow(n) } else { few_states(n as usize).len() as u64 };
+            plans += tablet_specs(n as usize, 0).len() as u64 * tstates * prefs * 2 * 2 * if tablet_dims.boundary_tokens { 4 } else { 2 };
+            total += plans;
+            let e = by_n.entry(n as usize).or_default();
+            e.0 += 1;
+            e.1 += plans;
+        }
+        for (n, (k, p)) in by_n {
+            println!("nodes={n}: topologies={k} plans={p}");
+        }
+        println!("total plans (estimate): {total}");
         std::process::exit(0);
     }
     let env_ref = &env;
     let legs_ref = &legs;
     vcore::par::for_each(r.args.jobs, 1, topos.iter().enumerate().rev().map(|(i, t)| (i, t)), |(i, t)| {
         let names = &SPELLINGS[0];
-        run_cluster(env_ref, &t.concrete(names), names.absent_dc, i as u64, legs_ref);
+        run_cluster(env_ref, &t.concrete(names), names.absent_dc, i as u64, legs_ref, Some(&tablet_dims));
     });
     sink.flush(&r);
     let sigs = env.signatures.lock().unwrap().clone();
